@@ -431,6 +431,42 @@ def run_conversions(R):
         R.validated += n
         R.structural(f"{label}: spec.validate <=> gym space.contains <=> dm_env spec.validate <=> within the bounds, for values at/inside/outside every element's bounds",
                      not bad, {"spec": label, "checked": n, "disagreements": bad[:3]})
+    # equality distinguishes a difference in exactly ONE attribute (shape, dtype, one bound element, num_values, name), in both
+    # orders, and pickling / replace() round-trip to an equal spec - on the synthetic specs (per-element bounds included)
+    variants = {
+        "BoundedArray": (lambda **k: specs.BoundedArray(**{**dict(shape=(3,), dtype=np.int32, minimum=[0, -2, 5], maximum=[1, 5, 9], name="p"), **k}),
+                         {"shape": dict(shape=(1, 3)), "dtype": dict(dtype=np.int16), "one minimum element": dict(minimum=[0, -3, 5]), "one maximum element": dict(maximum=[1, 5, 8]),
+                          "scalar vs per-element maximum": dict(maximum=9), "name": dict(name="q")}),
+        "DiscreteArray": (lambda **k: specs.DiscreteArray(**{**dict(num_values=4, dtype=np.int32, name="d"), **k}),
+                          {"num_values": dict(num_values=5), "dtype": dict(dtype=np.int8), "name": dict(name="e")}),
+        "MultiDiscreteArray": (lambda **k: specs.MultiDiscreteArray(**{**dict(num_values=np.array([2, 5, 3], np.int32), dtype=np.int32, name="m"), **k}),
+                               {"one num_values element": dict(num_values=np.array([2, 4, 3], np.int32)), "dtype": dict(dtype=np.int8), "name": dict(name="n")}),
+        "Array": (lambda **k: specs.Array(**{**dict(shape=(2, 2), dtype=np.float32, name="a"), **k}),
+                  {"shape": dict(shape=(4,)), "dtype": dict(dtype=np.float16), "name": dict(name="b")}),
+    }
+    for kind, (mk, diffs) in variants.items():
+        base_ = mk()
+        bad = []
+        try:
+            if not (bool(base_ == mk()) and bool(mk() == base_)):
+                bad.append("two specs built from equal arguments are not equal")
+            if not bool(pickle.loads(pickle.dumps(base_)) == base_):
+                bad.append("pickle round trip is not equal")
+            if not bool(base_.replace() == base_):
+                bad.append("replace() is not equal")
+            for what, kw in diffs.items():
+                other = mk(**kw)
+                if bool(base_ == other) or bool(other == base_):
+                    bad.append(f"a difference in {what} is not distinguished")
+                if not bool(pickle.loads(pickle.dumps(other)) == other):
+                    bad.append(f"pickle round trip of the {what} variant is not equal")
+                rk = {k_: v_ for k_, v_ in kw.items()}
+                if not bool(base_.replace(**rk) == other):
+                    bad.append(f"replace({what}) does not give the spec built with that attribute")
+        except Exception as e:  # noqa
+            bad.append(f"{type(e).__name__}: {str(e)[:120]}")
+        R.validated += 3 + 3 * len(diffs)
+        R.structural(f"{kind}: == distinguishes a difference in exactly one attribute ({', '.join(diffs)}); pickle and replace round-trip", not bad, {"kind": kind, "failed": bad})
     R.sample({"specs": list(synth)})
 
 
